@@ -22,10 +22,11 @@ func lindbCalc(typ string) timeutil.IntervalCalculator {
 }
 
 type calcChecker struct {
-	e     *childEnv
-	calcs map[string]timeutil.IntervalCalculator
-	evals int64
-	cnt   map[string]int64
+	e        *childEnv
+	calcs    map[string]timeutil.IntervalCalculator
+	evals    int64
+	cnt      map[string]int64
+	twSample map[string]bool
 }
 
 func (cc *calcChecker) count(name string, n int) { cc.cnt[name] += int64(n) }
@@ -40,7 +41,7 @@ func (cc *calcChecker) flush() {
 }
 
 func newCalcChecker(e *childEnv) *calcChecker {
-	cc := &calcChecker{e: e, calcs: map[string]timeutil.IntervalCalculator{}, cnt: map[string]int64{}}
+	cc := &calcChecker{e: e, calcs: map[string]timeutil.IntervalCalculator{}, cnt: map[string]int64{}, twSample: map[string]bool{}}
 	for _, t := range allTypes {
 		cc.calcs[t] = lindbCalc(t)
 		for _, iv := range intervalsByType[t] {
@@ -160,6 +161,31 @@ func (cc *calcChecker) check(ts int64, u uint64) {
 					typ, ivName(iv), fs, a, bb, sr.Start, sr.End, wantLo, wantHi), w("interval", iv, "range", []int64{a, bb}, "got", []uint16{sr.Start, sr.End}, "want", []int64{wantLo, wantHi}))
 			}
 		}
+		// --- reported only: CalcTimeWindows is not called anywhere in lindb outside its own tests
+		if u&15 == 5 {
+			famLen := fe - fs + 1
+			end := ts + int64((u>>11)%uint64(5*famLen))
+			eb := cal.bucketOf(typ, end)
+			var want int
+			switch typ {
+			case tDay:
+				want = int((eb.FamStart-b.FamStart)/msHour) + 1
+			case tMonth:
+				want = int((eb.FamStart-b.FamStart+msHour)/msDay) + 1
+			default:
+				t1, t2 := cal.at(ts), cal.at(end)
+				want = (t2.Year()-t1.Year())*12 + int(t2.Month()) - int(t1.Month()) + 1
+			}
+			cc.count("calc/"+typ+"/time_windows_checked(reported_only)", 1)
+			if got := calc.CalcTimeWindows(ts, end); got != want {
+				cc.count("calc/"+typ+"/time_windows_differs_from_family_count(reported_only,unused_code)", 1)
+				if !cc.twSample[typ] {
+					cc.twSample[typ] = true
+					r.Sample(map[string]interface{}{"part": "calc", "tz": e.tz, "reported_only": "CalcTimeWindows", "type": typ,
+						"start": cal.fmt(ts), "end": cal.fmt(end), "got": got, "families": want})
+				}
+			}
+		}
 		// --- coverage bookkeeping
 		if k := boundaryKind(b, ts); k != "" {
 			r.Nontrivial(e.tz + "|calc|" + typ + "|" + b.SegName + "|" + k)
@@ -250,9 +276,9 @@ func runCalc(e *childEnv) {
 	}
 	// seeded random milliseconds
 	rnd := e.rand("calc-random-ts")
-	total := e.pick(400_000, 16_000_000)
+	total := e.pick(400_000, 96_000_000)
 	if e.tz == "America/New_York" {
-		total = e.pick(30_000, 2_000_000)
+		total = e.pick(30_000, 8_000_000)
 	}
 	n := total / e.shards
 	lo, hi := e.cal.windowStart(), e.cal.windowEnd()
